@@ -1,5 +1,5 @@
 """C19 validate/isvalid agree with Python's own argument binding."""
-import functools, inspect
+import functools, inspect, types
 from hypothesis import strategies as st
 from harness import sigs as S
 from harness.cachehist import sig_source, exc_sig
@@ -24,6 +24,7 @@ SHARDS = {'quick': 4, 'thorough': 16}
 
 FOREIGN = ['zz', 'yy']
 KINDS = ['function', 'method', 'classmethod', 'instance']
+FACES = ['plain', 'bound', 'other_instance', 'methodtype', 'partial0']
 
 
 def all_names(sig):
@@ -81,7 +82,12 @@ def cases(draw, kind, partial):
     else:
         npos = draw(st.integers(0, 7))
         kw = draw(st.lists(st.sampled_from(kwpool), unique=True, max_size=4))
-    return {'sig': sig, 'kind': kind, 'partial': bool(partial), 'layers': layers, 'npos': npos, 'kw': kw}
+    # validity must not depend on what was inspected before: up to two earlier probes through OTHER faces of the same underlying
+    # function (plain function vs bound method vs another instance vs MethodType: they share one code object)
+    warm = []
+    for _ in range(draw(st.sampled_from([0, 0, 1, 2]))):
+        warm.append({'face': draw(st.sampled_from(FACES)), 'npos': draw(st.integers(0, 5)), 'kw': draw(st.lists(st.sampled_from(kwpool), unique=True, max_size=3))})
+    return {'sig': sig, 'kind': kind, 'partial': bool(partial), 'layers': layers, 'npos': npos, 'kw': kw, 'warm': warm}
 
 
 def strata(tier):
@@ -95,7 +101,7 @@ def strata(tier):
 # ------------------------------------------------------------ execution
 
 def build_callable(case, log):
-    """returns (callable handed to klepto, description)"""
+    """returns (callable handed to klepto, faces): faces = other callables built on the SAME underlying function object"""
     sig = case['sig']
     kind = case['kind']
     defaults = dict((n, 0) for n, _ in list(sig.get('opt', [])) + list(sig.get('kwopt', [])))
@@ -104,30 +110,54 @@ def build_callable(case, log):
         log.append(1)
         return None
     ns = {'_D': defaults, '_body': body}
+    faces = {}
     if kind == 'function':
         exec(compile(sig_source(sig, 'f'), '<generated f>', 'exec'), ns)
         target = ns['f']
+
+        class Obj(object):
+            pass
+        faces['plain'] = target
+        faces['bound'] = types.MethodType(target, Obj()) if sig.get('req') or sig.get('opt') or sig.get('varargs') else target
+        faces['other_instance'] = faces['bound']
+        faces['methodtype'] = faces['bound']
+        faces['partial0'] = functools.partial(target)
     else:
         first = 'cls' if kind == 'classmethod' else 'self'
         s2 = dict(sig)
         s2['req'] = [first] + list(sig.get('req', []))
         src = sig_source(s2, '__call__' if kind == 'instance' else 'm')
-        # the generated body reports (first, ...) among named; harmless
         lines = src.splitlines()
         deco = '    @classmethod\n' if kind == 'classmethod' else ''
         csrc = 'class K(object):\n' + deco + '\n'.join('    ' + l for l in lines) + '\n'
         exec(compile(csrc, '<generated K>', 'exec'), ns)
         K = ns['K']
+        inst, inst2 = K(), K()
         if kind == 'method':
-            target = K().m
+            target = inst.m
+            faces['plain'] = K.m                      # the function itself: wants the instance as first argument
+            faces['bound'] = inst.m
+            faces['other_instance'] = inst2.m
+            faces['methodtype'] = types.MethodType(K.m, inst2)
+            faces['partial0'] = functools.partial(K.m, inst)
         elif kind == 'classmethod':
             target = K.m
+            faces['plain'] = K.__dict__['m'].__func__  # underlying function: wants cls as first argument
+            faces['bound'] = K.m
+            faces['other_instance'] = inst.m
+            faces['methodtype'] = types.MethodType(K.__dict__['m'].__func__, K)
+            faces['partial0'] = functools.partial(K.m)
         else:
-            target = K()
+            target = inst
+            faces['plain'] = K.__call__
+            faces['bound'] = inst.__call__
+            faces['other_instance'] = inst2
+            faces['methodtype'] = types.MethodType(K.__call__, inst2)
+            faces['partial0'] = functools.partial(inst)
     vals = iter(range(100, 200))
     for l in case['layers']:
         target = functools.partial(target, *[next(vals) for _ in range(l['npos'])], **dict((k, next(vals)) for k in l['kw']))
-    return target
+    return target, faces
 
 
 def python_says(target, a, k, log):
@@ -144,50 +174,65 @@ def python_says(target, a, k, log):
     return True
 
 
+def probe(klepto, target, a, k, log, tag, desc, kwonly, out):
+    """one validity question, judged against really calling the stub; returns valid?"""
+    valid = python_says(target, a, k, log)
+    n0 = len(log)
+    suffix = '/kwonly' if kwonly else ''
+    try:
+        r = klepto.isvalid(target, *a, **k)
+        if r is not valid:
+            out.append(Discrepancy('C19/%s/isvalid-%s-for-%s-call%s' % (tag, r, 'valid' if valid else 'invalid', suffix),
+                                   'isvalid(%s, *%r, **%r) = %r but the call %s' % (desc, a, k, r, 'binds' if valid else 'fails binding')))
+    except Exception as e:
+        out.append(Discrepancy('C19/%s/isvalid-raised/%s' % (tag, exc_sig(e)), '%s *%r **%r: %r' % (desc, a, k, e)))
+    try:
+        r = klepto.validate(target, *a, **k)
+        if not valid:
+            out.append(Discrepancy('C19/%s/validate-accepts-invalid-call%s' % (tag, suffix),
+                                   'validate(%s, *%r, **%r) returned %r but the call fails binding' % (desc, a, k, r)))
+        elif r is not None:
+            out.append(Discrepancy('C19/%s/validate-returns-non-None' % tag, repr(r)))
+    except TypeError as e:
+        if valid:
+            out.append(Discrepancy('C19/%s/validate-rejects-valid-call%s' % (tag, suffix),
+                                   'validate(%s, *%r, **%r) raised %r but the call binds' % (desc, a, k, e)))
+    except Exception as e:
+        out.append(Discrepancy('C19/%s/validate-raised-non-TypeError/%s' % (tag, type(e).__name__),
+                               '%s *%r **%r (%s call): %r' % (desc, a, k, 'valid' if valid else 'invalid', e)))
+    if len(log) != n0:
+        out.append(Discrepancy('C19/%s/function-was-called' % tag, '%d evaluation(s) during isvalid/validate' % (len(log) - n0)))
+    return valid
+
+
 def run_case(case):
     import klepto
     out = []
     log = []
-    target = build_callable(case, log)
+    target, faces = build_callable(case, log)
     a = tuple(range(case['npos']))
     k = dict((n, 50 + i) for i, n in enumerate(case['kw']))
     sig = case['sig']
-    valid = python_says(target, a, k, log)
     kwonly = S.has_kwonly(sig)
     kindtag = ('partial-of-' if case['partial'] else '') + case['kind']
-    classes = ['kind:' + kindtag, 'valid' if valid else 'invalid']
+    classes = ['kind:' + kindtag]
+    for w in case.get('warm', []):
+        wa = tuple(range(w['npos']))
+        if w['face'] == 'plain' and case['kind'] != 'function':
+            wa = (object(),) + wa           # the explicit instance / class slot
+        wk = dict((n, 60 + i) for i, n in enumerate(w['kw']))
+        probe(klepto, faces[w['face']], wa, wk, log, 'face-%s-of-%s' % (w['face'], case['kind']), 'face %s of %s' % (w['face'], describe(case)), kwonly, out)
+        classes.append('warm_face:' + w['face'])
+    if out:
+        return out, None, classes
+    valid = probe(klepto, target, a, k, log, kindtag + ('/after-other-face' if case.get('warm') else ''), describe(case), kwonly, out)
+    classes.append('valid' if valid else 'invalid')
     if kwonly:
         classes.append('kwonly')
     if sig.get('varargs'):
         classes.append('varargs')
     if sig.get('varkw'):
         classes.append('varkw')
-    n0 = len(log)
-    # isvalid
-    try:
-        r = klepto.isvalid(target, *a, **k)
-        if r is not valid:
-            out.append(Discrepancy('C19/%s/isvalid-%s-for-%s-call%s' % (kindtag, r, 'valid' if valid else 'invalid', '/kwonly' if kwonly else ''),
-                                   'isvalid(%s, *%r, **%r) = %r but the call %s' % (describe(case), a, k, r, 'binds' if valid else 'fails binding')))
-    except Exception as e:
-        out.append(Discrepancy('C19/%s/isvalid-raised/%s' % (kindtag, exc_sig(e)), '%s *%r **%r: %r' % (describe(case), a, k, e)))
-    # validate
-    try:
-        r = klepto.validate(target, *a, **k)
-        if not valid:
-            out.append(Discrepancy('C19/%s/validate-accepts-invalid-call%s' % (kindtag, '/kwonly' if kwonly else ''),
-                                   'validate(%s, *%r, **%r) returned %r but the call fails binding' % (describe(case), a, k, r)))
-        elif r is not None:
-            out.append(Discrepancy('C19/%s/validate-returns-non-None' % kindtag, repr(r)))
-    except TypeError as e:
-        if valid:
-            out.append(Discrepancy('C19/%s/validate-rejects-valid-call%s' % (kindtag, '/kwonly' if kwonly else ''),
-                                   'validate(%s, *%r, **%r) raised %r but the call binds' % (describe(case), a, k, e)))
-    except Exception as e:
-        out.append(Discrepancy('C19/%s/validate-raised-non-TypeError/%s' % (kindtag, type(e).__name__),
-                               '%s *%r **%r (%s call): %r' % (describe(case), a, k, 'valid' if valid else 'invalid', e)))
-    if len(log) != n0:
-        out.append(Discrepancy('C19/%s/function-was-called' % kindtag, '%d evaluation(s) during isvalid/validate' % (len(log) - n0)))
     # non-trivial rule
     posn = len(sig.get('req', [])) + len(sig.get('opt', []))
     fixed = sum(l['npos'] for l in case['layers'])
@@ -222,7 +267,7 @@ def describe(case):
     return d
 
 
-REQUIRED_CLASSES = ['valid', 'invalid', 'kwonly', 'varargs', 'varkw', 'near_arity'] + ['kind:' + k for k in KINDS] + ['kind:partial-of-' + k for k in KINDS]
+REQUIRED_CLASSES = ['valid', 'invalid', 'kwonly', 'varargs', 'varkw', 'near_arity'] + ['warm_face:' + f for f in FACES] + ['kind:' + k for k in KINDS] + ['kind:partial-of-' + k for k in KINDS]
 
 
 def _t_kwonly(case, discr):
